@@ -145,7 +145,7 @@ MonStep(m, e) ==
             s2 == IF c2 THEN StepT(m.c, m.s, e.t) ELSE m.s
         IN [ok |-> r.ok, why |-> r.why, m |-> [r.m EXCEPT !.conf = c2, !.s = s2],
             lab |-> IF c2 THEN "conform:" \o e.at ELSE IF m.conf THEN "diverged:" \o e.at ELSE "after_divergence"]
-    ELSE IF m.mode = "ctl" /\ e.e = "Stuck" THEN
+    ELSE IF e.e = "Stuck" THEN
         [ok |-> FALSE, why |-> "no_progress", m |-> [m EXCEPT !.dead = TRUE], lab |-> ""]
     ELSE IF m.mode = "ctl" /\ e.e = "Drain" THEN
         LET r == CtlDrain(m, e) IN [ok |-> r.ok, why |-> r.why, m |-> r.m, lab |-> ""]
